@@ -287,8 +287,7 @@ UNIT = Unit(
                   ("let body = concat_parts(parts, attr_ptr);", "line-after", "proof { assert(chain(body, __pf1)); }")],
            loop_fn=ss_loops),
         Fn(file=D, name="unsupported_field_type", ret="r", optional=True,
-           rewrites=RW + [(re.compile(r"matches!\(\s*ty,\s*TypeExpr::TTuple \{ \.\. \} \| TypeExpr::TArray \{ \.\. \} \| TypeExpr::TFunc \{ \.\. \}\s*\)"),
-                           "(match ty { TypeExpr::TTuple { .. } | TypeExpr::TArray { .. } | TypeExpr::TFunc { .. } => true, _ => false })", 1)],
+           rewrites=RW + [(re.compile(r"matches!\(\s*ty,\s*((?:TypeExpr::\w+ \{ \.\. \}\s*\|?\s*)+)\)"), r"(match ty { \1 => true, _ => false })", 1)],
            obligation="true exactly for tuple, array and function types", contract="ensures r == no_method_ty(*ty),"),
         Fn(file=D, name="derive_struct_tojson", ret="r", rewrites=RW, attrs="#[verifier::loop_isolation(false)]", rules=["attrs", "iter_any"], loop_fn=unsup_loops,
            pre_rewrites=[(re.compile(r"\s*\n\s*\.(?=\w)"), ".", "*")],
